@@ -291,3 +291,27 @@ for th, feat in ((1, 'tree_huge_1'), (2, 'tree_huge_2'), (8, 'tree_huge_8')):
         ob(f'lower::c06_free_all_b{b}', ['C06', 'C02'], ['lower::Lower::free_all'], tier='thorough', features=(feat,), kind='config-bounded', bound=FB, cover=False)
         ob(f'lower::c06_reserve_all_b{b}', ['C06', 'C02'], ['lower::Lower::reserve_all'], tier='thorough', features=(feat,), kind='config-bounded', bound=FB, cover=False)
         ob(f'lower::c05_recover_b{b}', ['C05', 'C09'], ['lower::Lower::recover'], tier='thorough', features=(feat,), kind='config-bounded', bound=FB + ' (any persistent state)', cover=False)
+
+# ------------------------------------------------------------------------------------------------
+# Locals slot-level contracts; C10 / C11 completeness (modular, contract C0)
+# ------------------------------------------------------------------------------------------------
+ob('local::l1b_locals_steal_any', ['C09', 'C13', 'C18'], ['local::Locals::steal_any', 'local::Locals::get'], kind='config-bounded', timeout=1500,
+   bound='classes 0,1,2 with (1,1,0) slots (one class WITHOUT slots), any slot words, every kind-policy, any requester / index / tree / amount', cover=False)
+ob('local::l1b_locals_steal_any_2_1_0', ['C09', 'C13', 'C18'], ['local::Locals::steal_any'], tier='thorough', kind='config-bounded', timeout=1500,
+   bound='classes with (2,1,0) slots (different slot counts), any slot words', cover=False)
+ob('local::l1b_locals_demote_any', ['C09', 'C13', 'C18'], ['local::Locals::demote_any'], tier='thorough', kind='config-bounded', timeout=1500, bound='classes with (1,1,0) slots', cover=False)
+ob('local::l1b_locals_demote_any_0_1_2', ['C09', 'C13', 'C18'], ['local::Locals::demote_any'], kind='config-bounded', timeout=1500, bound='classes with (0,1,2) slots (requesting class may have no slots)', cover=False)
+ob('local::l1b_locals_get_put_swap', ['C09', 'C04', 'C18'], ['local::Locals::get', 'local::Locals::put'], kind='config-bounded', bound='classes with (1,2,0) slots, any slot words', cover=False)
+C0_ASSUMES = G_ASSUMES + ['contract C0 of the inner helpers (each checked by its own c0_* obligation)',
+                          'trees::Trees::search_best visits every acceptable tree (c16_search_best_n*, l1b_search_best_result_n3; tree array not longer than the smallest buffer)']
+for name, fns, props in (('c0_steal_global_2c', ['llfree::LLFree::steal_global'], ['C10']), ('c0_reserve_or_steal_2c', ['llfree::LLFree::reserve_or_steal'], ['C10', 'C11']),
+                         ('c0_get_local_2c', ['llfree::LLFree::get_local', 'trees::Trees::sync'], ['C10', 'C11']), ('c0_get_local_1c', ['llfree::LLFree::get_local', 'trees::Trees::sync'], ['C11']),
+                         ('c0_search_and_reserve_2c', ['llfree::LLFree::search_and_reserve'], ['C10']), ('c0_search_and_reserve_1c', ['llfree::LLFree::search_and_reserve'], ['C11']),
+                         ('c10_drained_base_order_modular_2c', ['llfree::LLFree::get'], ['C10']), ('c11_single_slot_modular', ['llfree::LLFree::get'], ['C11'])):
+    ob('llfree::' + name, props, fns, kind='config-bounded', timeout=1500, assumes=C0_ASSUMES,
+       bound='2 trees, ' + ('ONE class with one slot' if '1c' in name or 'c11' in name else 'classes 0..1 with one slot each') + '; all states under invariant I; base order, no target; every kind-policy'
+             + ('; drained, never-Invalid policy' if 'c10' in name else ''), cover=(name in ('c10_drained_base_order_modular_2c', 'c11_single_slot_modular')))
+COVER_ON = COVER_ON + ('c10_drained_base_order_modular', 'c11_single_slot_modular')
+for _o in OBS:
+    if _o['harness'] in ('c10_drained_base_order_modular_2c', 'c11_single_slot_modular'):
+        _o['cover'] = True
